@@ -1,6 +1,6 @@
 /-
-  Every endpoint program is safe: it issues `createCode` / `createRefresh` only under their
-  guards.  Hence (`safeK_sound`) every operation preserves the grant invariant.
+  Every endpoint program is safe: it issues `createCode` / `createRefresh` (/ `createDevice` /
+  `createPAR`: `Proofs/SafeDevicePar.lean`) only under their guards.  Hence (`safeK_sound`) every operation preserves the grant invariant.
 -/
 import Fosite.Proofs.Calm
 import Fosite.Proofs.Refresh
@@ -10,7 +10,7 @@ theorem safeK_of_calm_wp {α} (rc) (p : Prog α) (K : RState → α → Prop) (r
     safeK rc p K rs := by
   induction p generalizing rs with
   | ret a => exact hw
-  | call c k ih => exact ⟨fun _ => guard_of_guardless _ _ hc.1 hc.2.1, ih _ _ (hc.2.2 _) hw⟩
+  | call c k ih => exact ⟨fun _ => guard_of_guardless _ _ hc.1, ih _ _ (hc.2 _) hw⟩
 
 theorem safeH_of_calm_wpOk {α} (rc) (x : HP α) (K : RState → α → Prop) (rs) (hc : calmH x) (hw : wpOk rc x K rs) :
     safeH rc x K rs := by
@@ -62,13 +62,18 @@ theorem safeH_calm_then {α} (rc) (x : HP α) (K : RState → α → Prop) (rs) 
   exact wp_mono rc x.toProg _ _ rs (fun rs' r _ a _ => hK rs' a) (wp_true rc x.toProg rs)
 
 theorem guard_trivial (ss : SState) (c : Call) (h : Guardless c) : GInv ss → Guard ss c :=
-  fun _ => guard_of_guardless ss c h.1 h.2
+  fun _ => guard_of_guardless ss c h
 
 theorem exec_createAccess_frame (ss : SState) (r : Req) :
     (ss.exec (.createAccess r)).1.store.refresh = ss.store.refresh ∧
     (ss.exec (.createAccess r)).1.store.codes = ss.store.codes ∧
     (ss.exec (.createAccess r)).1.store.rtIdx = ss.store.rtIdx ∧
     (ss.exec (.createAccess r)).1.next = ss.next + 1 := by
+  simp [SState.exec]
+
+theorem exec_createAccess_frame2 (ss : SState) (r : Req) :
+    (ss.exec (.createAccess r)).1.store.device = ss.store.device ∧
+    (ss.exec (.createAccess r)).1.store.par = ss.store.par := by
   simp [SState.exec]
 
 theorem exec_newId_next (ss : SState) : (ss.exec .newId).1.next = ss.next + 1 := by simp [SState.exec]
@@ -129,17 +134,21 @@ theorem redeem_safe (rc : RunCfg) (hp : Plain rc) (cfg : Config) (now : Time) (q
   · intro hcan
     refine ⟨?_, ?_⟩
     · -- the guard of createRefresh
-      intro _
+      intro hcur
       have hst : (RState.step rc (RState.step rc (RState.step rc (RState.step rc rs4 (.getCode q.code.sig)).1 .beginTx).1
           (.invalidateCode q.code.sig)).1 (.createAccess ((redeemStoreReq cfg now q client rec.req ar2).sanitize []))).1.ss
           = ((({ rs4.ss with store := { rs4.ss.store with codes := aset rs4.ss.store.codes sig { rec with active := false } } } : SState).exec
               (.createAccess ((redeemStoreReq cfg now q client rec.req ar2).sanitize []))).1) := by
         rw [h8.1, h7.1, hinvst, h6, h5.1]
-      rw [hst]
+      rw [hst] at hcur ⊢
       obtain ⟨fr, fc, fi, fn⟩ := exec_createAccess_frame
         ({ rs4.ss with store := { rs4.ss.store with codes := aset rs4.ss.store.codes sig { rec with active := false } } } : SState)
         ((redeemStoreReq cfg now q client rec.req ar2).sanitize [])
-      refine ⟨?_, ?_, ?_⟩
+      have hcl : alookup ((({ rs4.ss with store := { rs4.ss.store with codes := aset rs4.ss.store.codes sig { rec with active := false } } } : SState).exec
+              (.createAccess ((redeemStoreReq cfg now q client rec.req ar2).sanitize []))).1).store.codes sig
+          = some { rec with active := false } := by
+        rw [fc]; exact alookup_aset_self _ _ _
+      refine ⟨?_, ?_, ?_, ?_, ?_⟩
       · show rec.req.id < _
         rw [fn]; show rec.req.id < rs4.ss.next + 1
         have := (hinv.codesBelow sig rec hrec).2; omega
@@ -159,6 +168,11 @@ theorem redeem_safe (rc : RunCfg) (hp : Plain rc) (cfg : Config) (now : Time) (q
         · simp only [hs, if_false] at hl
           intro heq
           exact hs (hinv.codeIds s sig c rec hl hrec heq)
+      · -- no live device authorization / pushed request carries the id of a stored code
+        intro s d hl hu heq
+        exact (hcur.devFresh s d hl hu).2 sig _ hcl heq.symm
+      · intro u p hl heq
+        exact (hcur.parFresh u p hl).2 sig _ hcl heq.symm
     · intro n hrt
       refine ⟨guard_trivial _ _ (by guardless), ?_⟩
       intro _
@@ -230,14 +244,18 @@ theorem refresh_safe (rc : RunCfg) (hp : Plain rc) (cfg : Config) (now : Time) (
     rw [(exec_newId_ss rs.ss).1]; exact hrec
   obtain ⟨er, ei, ec, en⟩ := exec_rotate_effect (rs.ss.exec .newId).1 rec.req.id sig q.token.sig rec hidx hrec1
   refine ⟨?_, ?_⟩
-  · intro _
-    rw [h6.1]
+  · intro hcur
+    rw [h6.1] at hcur ⊢
     obtain ⟨fr, fc, fi, fn⟩ := exec_createAccess_frame
       ((rs.ss.exec .newId).1.exec (.rotateRefresh (refreshStoreReq cfg now q client rec.req).id q.token.sig)).1
       ((refreshStoreReq cfg now q client rec.req).sanitize [])
     have hid : (refreshStoreReq cfg now q client rec.req).id = rec.req.id := rfl
-    rw [hid] at fr fc fi fn ⊢
-    refine ⟨?_, ?_, ?_⟩
+    rw [hid] at fr fc fi fn hcur ⊢
+    have hrl : alookup ((((rs.ss.exec .newId).1.exec (.rotateRefresh rec.req.id q.token.sig)).1.exec
+        (.createAccess ((refreshStoreReq cfg now q client rec.req).sanitize []))).1).store.refresh sig
+        = some { rec with active := false } := by
+      rw [fr, er]; exact alookup_aset_self _ _ _
+    refine ⟨?_, ?_, ?_, ?_, ?_⟩
     · show rec.req.id < _
       rw [fn, en, exec_newId_next]
       have := (hinv.refreshBelow sig rec hrec).2; omega
@@ -255,6 +273,11 @@ theorem refresh_safe (rc : RunCfg) (hp : Plain rc) (cfg : Config) (now : Time) (
       show c.req.id ≠ rec.req.id
       rw [fc, ec, (exec_newId_ss rs.ss).1] at hl
       exact fun heq => hinv.codeRT s c sig rec hl hca hrec heq.symm
+    · -- no live device authorization / pushed request carries the id of a stored refresh token
+      intro s d hl hu heq
+      exact (hcur.devFresh s d hl hu).1 sig _ hrl heq.symm
+    · intro u p hl heq
+      exact (hcur.parFresh u p hl).1 sig _ hrl heq.symm
   · intro rt hrt
     refine ⟨guard_trivial _ _ (by guardless), ?_⟩
     intro _ _
@@ -320,15 +343,17 @@ theorem calmH_authzPKCE (cfg client q acc) : calmH (authzPKCE cfg client q acc) 
       · apply calmH_bind _ _ (calmH_expectOk _ _ (by guardless) (fun _ => calm_retErr _)); intro _
         exact calmH_pure _
 
-/-- a request id that no stored code or refresh record carries -/
+/-- a request id that no stored code, refresh record, live device authorization or pushed request carries -/
 def IdFresh (ss : SState) (n : Nat) : Prop :=
   n < ss.next ∧ (∀ sig rec, alookup ss.store.refresh sig = some rec → rec.req.id ≠ n) ∧
-    (∀ s c, alookup ss.store.codes s = some c → c.req.id ≠ n)
+    (∀ s c, alookup ss.store.codes s = some c → c.req.id ≠ n) ∧ NoPending ss n
 
 theorem idFresh_after_newId (ss : SState) (h : GInv ss) : IdFresh (ss.exec .newId).1 ss.next := by
-  refine ⟨by rw [exec_newId_next]; omega, ?_, ?_⟩
+  refine ⟨by rw [exec_newId_next]; omega, ?_, ?_, ?_, ?_⟩
   · intro sig rec hl; rw [(exec_newId_ss ss).1] at hl; have := (h.refreshBelow sig rec hl).2; omega
   · intro s c hl; rw [(exec_newId_ss ss).1] at hl; have := (h.codesBelow s c hl).2; omega
+  · intro s d hl _; rw [(exec_newId_ss ss).1] at hl; have := (h.devBelow s d hl).2; omega
+  · intro u p hl; rw [(exec_newId_ss ss).1] at hl; have := (h.parBelow u p hl).2; omega
 
 theorem exec_newId_nat (ss : SState) (n : Nat) (h : (ss.exec .newId).2 = .nat n) : n = ss.next := by
   simp only [SState.exec] at h; cases h; rfl
@@ -358,25 +383,17 @@ theorem authz_tail_calm (rc) (cfg : Config) (now : Time) (minNonce : Nat) (clien
   apply safeH_calm_then rc _ _ _ (calmH_authzPKCE _ _ _ _); intro rs3 a3
   exact trivial
 
-/-- the authorization endpoint creates a code only under a request id nothing else carries -/
-theorem authorize_safe (rc : RunCfg) (hp : Plain rc) (cfg : Config) (now : Time) (minNonce : Nat) (q : AuthzReq) (rs : RState)
-    (hinv : GInv rs.ss) : safeH rc (authorizeH cfg now minNonce q) (fun _ _ => True) rs := by
-  have hnf := hp.1
-  have nf : ∀ rs c e, (RState.step rc rs c).2 ≠ .fail e := fun rs c e => step_no_fail rc hnf rs c e
-  unfold authorizeH
-  simp only [safeH_bind, safeH_guard, safeH_expectClient, safeH_expectNat _ _ _ _ _ (fun _ => calm_retErr _), safeH_optErr]
-  intro _
-  refine ⟨guard_trivial _ _ (by guardless), ?_⟩
-  intro client hcl _ _
-  refine ⟨guard_trivial _ _ (by guardless), ?_⟩
-  intro n hn
-  have h1 := step_eq_exec rc rs (.getClient q.clientId) rfl _ hcl (by intro e; simp)
-  rw [exec_getClient_fst] at h1
-  have h2 := step_eq_exec rc (rs.step rc (.getClient q.clientId)).1 .newId rfl _ hn (by intro e; simp)
-  rw [h1.1] at h2
-  have hnn := exec_newId_nat _ _ h2.2
-  have hfresh : IdFresh (RState.step rc (RState.step rc rs (.getClient q.clientId)).1 .newId).1.ss n := by
-    rw [h2.1, hnn]; exact idFresh_after_newId rs.ss hinv
+/-- the handler pipeline of `NewAuthorizeResponse`, started on a request whose id nothing stored
+    carries, creates its code (if any) under that id before anything else is stored -/
+theorem authz_pipeline_safe (rc : RunCfg) (cfg : Config) (now : Time) (minNonce : Nat) (client : Client) (q : AuthzReq)
+    (rs : RState) (acc0 : AuthzAcc) (hfresh : IdFresh rs.ss acc0.ar.id) :
+    safeH rc (authzExplicit cfg now client q acc0)
+      (fun rs' a => safeH rc (authzImplicit cfg now client q a)
+        (fun rs' a => safeH rc (authzOIDCExplicit q a)
+          (fun rs' a => (!(matchesArgs q.responseTypes ["id_token"] || matchesArgs q.responseTypes ["token", "id_token"])) = true →
+            safeH rc (authzHybrid cfg now minNonce client q a)
+              (fun rs' a => safeH rc (authzPKCE cfg client q a)
+                (fun rs' a => safeH rc (pure (Out.authz a.code a.atk a.idt)) (fun _ _ => True) rs') rs') rs') rs') rs') rs := by
   by_cases hE : exactOne q.responseTypes "code" = true
   · -- plain code flow: the explicit handler creates the code right after the id was allocated
     have hH := exactOne_not_hybrid _ _ hE
@@ -423,5 +440,27 @@ theorem authorize_safe (rc : RunCfg) (hp : Plain rc) (cfg : Config) (now : Time)
           apply safeH_calm_then rc _ _ _ (calmH_authzPKCE _ _ _ _); intro _ _; exact trivial
     · have hH' : isHybrid q.responseTypes = false := by simpa using hH
       exact authz_tail_calm rc cfg now minNonce client q hH' _ _
+
+
+/-- the authorization endpoint creates a code only under a request id nothing else carries -/
+theorem authorize_safe (rc : RunCfg) (hp : Plain rc) (cfg : Config) (now : Time) (minNonce : Nat) (q : AuthzReq) (rs : RState)
+    (hinv : GInv rs.ss) : safeH rc (authorizeH cfg now minNonce q) (fun _ _ => True) rs := by
+  have hnf := hp.1
+  have nf : ∀ rs c e, (RState.step rc rs c).2 ≠ .fail e := fun rs c e => step_no_fail rc hnf rs c e
+  unfold authorizeH
+  simp only [safeH_bind, safeH_guard, safeH_expectClient, safeH_expectNat _ _ _ _ _ (fun _ => calm_retErr _), safeH_optErr]
+  intro _
+  refine ⟨guard_trivial _ _ (by guardless), ?_⟩
+  intro client hcl _ _
+  refine ⟨guard_trivial _ _ (by guardless), ?_⟩
+  intro n hn
+  have h1 := step_eq_exec rc rs (.getClient q.clientId) rfl _ hcl (by intro e; simp)
+  rw [exec_getClient_fst] at h1
+  have h2 := step_eq_exec rc (rs.step rc (.getClient q.clientId)).1 .newId rfl _ hn (by intro e; simp)
+  rw [h1.1] at h2
+  have hnn := exec_newId_nat _ _ h2.2
+  have hfresh : IdFresh (RState.step rc (RState.step rc rs (.getClient q.clientId)).1 .newId).1.ss n := by
+    rw [h2.1, hnn]; exact idFresh_after_newId rs.ss hinv
+  exact authz_pipeline_safe rc cfg now minNonce client q _ { ar := authzBaseReq now client q n } hfresh
 
 end Fosite.Model
